@@ -111,7 +111,7 @@ type Contracts struct {
 	Order  []string
 }
 
-var keywordRe = regexp.MustCompile(`^(func|assumed|iface|spec|lemma|axiom|property|requires|ensures|modifies|loop|panics|option|let|pure|trust|call|ghost|decreases)\b`)
+var keywordRe = regexp.MustCompile(`^(func|assumed|iface|spec|lemma|axiom|property|requires|ensures|modifies|loop|panics|option|let|pure|trust|call|ghost|decreases|recv)\b`)
 
 func LoadContracts(files map[string][2]string) (*Contracts, error) {
 	cs := &Contracts{Funcs: map[string]*FuncContract{}, Specs: map[string]*SpecFn{}, Lemmas: map[string]*Lemma{}, Props: map[string][]string{}}
@@ -284,6 +284,25 @@ func (cs *Contracts) loadFile(file, pkgPath, pkgName string) error {
 				return perr(err)
 			}
 			cur.CallNames = append(cur.CallNames, CallName{k, f[1], f[3]})
+		case "recv":
+			// recv <k> assert <e>: the k-th channel receive of the function (in
+			// source order) blocks only where <e> holds -- the justification
+			// that the sender has sent or will send. A function with any recv
+			// clause must justify every receive it contains.
+			f := strings.Fields(rest)
+			if len(f) < 3 || f[1] != "assert" {
+				return perr(fmt.Errorf("recv clause: recv <ordinal> assert <expr>"))
+			}
+			k, err := strconv.Atoi(f[0])
+			if err != nil {
+				return perr(err)
+			}
+			body := strings.TrimSpace(rest[strings.Index(rest, " assert ")+8:])
+			c, err := mk("assert", body)
+			if err != nil {
+				return err
+			}
+			cur.CallAsserts = append(cur.CallAsserts, CallAssert{Ordinal: k, Callee: "<-", C: c})
 		case "loop":
 			f := strings.Fields(rest)
 			if len(f) < 2 {
